@@ -1093,7 +1093,31 @@ class Pattern(Task):
             pats.append(occs)
         return pats
 
+    def _near_family(self, rng):
+        """prototypes that are translations of one another only UP TO the tolerance (default tol = 1e-5): the later
+        notes of variant j come 0.6e-5 * j s late, so variants j, k match iff |j - k| <= 1 - a relation that is not
+        transitive.  Which reference patterns have a matching estimate does not depend on the order of either list."""
+        base = self._occ(rng, rng.randint(2, 4))
+
+        def pat(j):
+            dt = Fr(rng.randint(0, 40), 4)
+            occ = [(base[0][0] + dt, base[0][1])] + [(t + dt + Fr(6 * j, 10 ** 6), m) for t, m in base[1:]]
+            occs = [occ]
+            if rng.random() < 0.4:
+                d2 = Fr(rng.randint(1, 40), 4)
+                occs.append([(t + d2, m) for t, m in occ])
+            return occs
+        nq = rng.randint(2, 4)
+        est = [pat(j) for j in (rng.sample(range(5), nq) if rng.random() < 0.7 else [rng.randrange(5) for _ in range(nq)])]
+        ref = [pat(j) for j in rng.sample(range(5), rng.randint(2, nq))]
+        if rng.random() < 0.3:
+            ref += self._patterns(rng, 1)
+            est += self._patterns(rng, 1)
+        return {"ref": self._ser(ref), "est": self._ser(est)}
+
     def gen(self, rng):
+        if rng.random() < 0.15:
+            return self._near_family(rng)
         ref = self._patterns(rng, rng.choice([1, 2, 3]), dup=True)
         if rng.random() < 0.5:
             est = [[list(o) for o in p if rng.random() < 0.8] or [list(p[0])] for p in ref if rng.random() < 0.8]
@@ -1140,7 +1164,10 @@ class Pattern(Task):
     def permute(self, inp, rng):
         ref = [p for p in inp["ref"]]
         rng.shuffle(ref)
-        return {"ref": ref, "est": inp["est"]}
+        est = [p for p in inp["est"]]
+        if rng.random() < 0.5:
+            rng.shuffle(est)
+        return {"ref": ref, "est": est}
 
 
 TASKS = collections.OrderedDict((t.name, t) for t in [
